@@ -10,6 +10,7 @@ from ..harness import hsh
 from ..seqschema import pool
 from ..sessmodel import Refuse, MObj
 from . import seq as S
+from . import seq_detached
 
 MOD_OPS = ('new', 'set', 'setmany', 'rel', 'add', 'remove', 'clear', 'assign', 'create_in', 'del',
            'set_none', 'setpk')
@@ -17,7 +18,9 @@ READ_OPS = ('r_attr', 'r_pk', 'r_get', 'r_exists', 'r_select', 'r_count', 'r_agg
 CTL_OPS = ('flush', 'commit', 'rollback')
 
 
-class Interp(S.SeqRun):
+class Interp(seq_detached.DetachedMixin, S.SeqRun):
+    last_handles = {}
+    last_view = None
 
     # ------------------------------------------------------------------ value helpers
     def scalar_kwargs(self, e, b, c, with_optional=True):
@@ -759,6 +762,9 @@ class Interp(S.SeqRun):
         """flush / commit raised: classify (C16) and remember that nothing of this transaction may persist"""
         self.probe('flush_failed')
         self.probe('flush_failed_' + type(e).__name__)
+        self.hooks_check_window(False, where)
+        self.hook_edits = []
+        self.hook_created = []
         injected = any(getattr(x, 'ponysim_injected', None) for x in _chain(e))
         if injected:
             self.fault_fired_in_session = True
@@ -814,7 +820,27 @@ class Interp(S.SeqRun):
             raise S.Poisoned()
         self.after_flush()
 
+    def op_oflush(self, a, b, c):
+        """obj.flush(): saves one object (and the objects it depends on)"""
+        mo = self.pick(a)
+        if mo is None:
+            return
+        h = self.handle_or_poison(mo.mid)
+        self.cur_op_desc = 'oflush %s#%d.flush()' % (mo.ent, mo.mid)
+        try:
+            h.flush()
+        except Exception as e:
+            self.flush_failed(e, 'obj.flush()')
+            raise S.Poisoned()
+        self.trace.append('%s.%s OK   %s' % (self.sess_index, self.op_index, self.cur_op_desc))
+        self.hooks_check_window(True, 'obj.flush()')
+        self.refresh_pks()
+        self.session_clean = False      # partial flush: the C16 must-succeed classification no longer applies
+        self.probe('obj_flush')
+
     def after_flush(self):
+        self.hooks_apply_to_model()
+        self.hooks_check_window(True, 'flush')
         self.refresh_pks()
         for o in self.view.live():
             o.stored = True
@@ -852,6 +878,8 @@ class Interp(S.SeqRun):
         self.compare_db(self.committed, 'C09', 'rolled-back-changes-visible', 'mid-session-rollback')
 
     def discard_session_state(self, why):
+        if self.handles:
+            self.last_handles, self.last_view = dict(self.handles), self.view
         self.view = self.committed.clone()
         self.handles = {}
         self.h2m = {}
@@ -865,6 +893,10 @@ class Interp(S.SeqRun):
     def run_session(self, si, sess):
         self.sess_index = si
         self.key_conflict_reported = False
+        self.hook_window_start = len(simdb.ctx.events)
+        self.hook_log_start = len(self.hook_log)
+        self.hook_edits = []
+        self.hook_created = []
         self.view = self.committed.clone()
         self.handles = {}
         self.h2m = {}
@@ -907,20 +939,30 @@ class Interp(S.SeqRun):
             # normal exit: the session committed
             if ended == 'exit':
                 self.committed_ok('session-exit')
+                how = 'committed'
+                self.last_handles, self.last_view = dict(self.handles), self.view
+            else:
+                how = 'rolled-back'
         except S.Marker:
+            how = 'rolled-back'
             self.discard_session_state('body raised')
             self.compare_db(self.committed, 'C09', 'failed-session-changes-visible', 'session-raised')
         except S.Poisoned:
+            how = 'failed'
             self.probe('session_poisoned')
             self.discard_session_state('poisoned')
             self.compare_db(self.committed, 'C14' if False else 'C09', 'failed-session-changes-visible', 'session-failed')
         except Exception as e:
             # the commit at session exit failed
+            how = 'failed'
             self.flush_failed(e, 'commit at session exit')
             self.discard_session_state('exit commit failed')
             self.compare_db(self.committed, 'C09', 'failed-session-changes-visible', 'exit-commit-failed')
         finally:
             simdb.ctx.gfaults.clear()
+        if self.case.get('detached') and not core.local.db2cache and self.last_handles:
+            self.detached_phase(si, self.last_handles, self.last_view, how, bool(opts.get('strict')))
+        self.last_handles, self.last_view = {}, None
         leftover = core.local.db2cache
         if leftover:
             try:
@@ -929,6 +971,10 @@ class Interp(S.SeqRun):
                 pass
 
     def dispatch(self, name, a, b, c):
+        if name.startswith('r_') and self.knobs.get('hook_mode') in ('modify', 'create'):
+            # hooks that edit data run inside the auto-flush a read may trigger; the expected answer is
+            # computed from the model before the read, so let the (always legal) flush happen first
+            self.op_flush()
         if name == 'new':
             self.op_new(a, b, c)
         elif name == 'set':
@@ -946,7 +992,10 @@ class Interp(S.SeqRun):
         elif name == 'create_in':
             self.op_create_in(a, b, c)
         elif name == 'raw_log':
-            self.op_raw_log(a, b, c)
+            if not self.knobs.get('hook_mode'):
+                self.op_raw_log(a, b, c)
+        elif name == 'oflush':
+            self.op_oflush(a, b, c)
         elif name == 'seq_in':
             self.op_seq_in(a, b, c)
         elif name == 'new_rawfk':
